@@ -1011,6 +1011,12 @@ def cleanup_rules(ctx, crate, info, conv, label):
     dom = b.dominators(unwind=False)
     sl = [(bb, t) for bb, t in set_len if bb in dom.get(ok_block, set())]
     if len(sl) != 1:
+        # not on a straight line: take the calls met on the success paths (each path must have exactly one)
+        sp = [pt for pt in tail_paths(b, info['t_cu']['t'], info['t_cu']['dest']['l']) if pt['case'] == 'success']
+        per = [[(bb, t) for bb, t, av in pt['calls'] if callee_path(t) == 'alloc::vec::Vec::<T, A>::set_len'] for pt in sp]
+        if sp and all(len(x) == 1 for x in per) and len({id(x[0][1]) for x in per}) == 1:
+            sl = per[0]
+    if len(sl) != 1:
         ctx.add(['C08'], 'O5', b.span(), 'the success arm calls set_len %d times before returning' % len(sl), key='set-len-count')
     else:
         a = trace_value(b, defs, sl[0][1]['args'][1])
@@ -1025,91 +1031,117 @@ def cleanup_rules(ctx, crate, info, conv, label):
         else:
             disc('O5', fmt_span(sl[0][1]['span']), 'set_len(produced) on the success arm')
             ctx.inst('O5', 'set_len(produced) [%s]' % label)
-    # allow-list of calls touching the Vec / wrapper on the success chain
-    # ---- arms after catch_unwind: classify blocks by the discriminant switches
+    # ---- what happens after catch_unwind returned, path by path (the tail is loop-free): which of the
+    # three outcomes the path belongs to is decided by the switches on the discriminants of the
+    # result; values moved out of it are followed through re-wrapping and a second match
     res_local = info['t_cu']['dest']['l']
-    arms = classify_arms(b, res_local, info['bb_cu'])
-    if arms is None:
-        raise CUnanalysable('cannot classify the arms after catch_unwind')
-    conv['arms'] = {k: v['entry'] for k, v in arms.items()}
     cleanup_path = info['cleanup_closure']
+    paths = tail_paths(b, info['t_cu']['t'], res_local)
+    conv['tail_paths'] = len(paths)
+
+    def is_release(t):
+        p = callee_path(t)
+        if p not in ('core::mem::manually_drop::ManuallyDrop::<T>::drop', 'core::mem::manually_drop::ManuallyDrop::<T>::into_inner', 'core::ptr::drop_in_place', 'core::mem::manually_drop::ManuallyDrop::<T>::take'):
+            return False
+        s1 = trace_value(b, defs, t['args'][0])
+        root = s1[-1]
+        tgt = None
+        if root[0] == 'ref' and not root[2]['p']:
+            tgt = root[2]['l']
+        elif root[0] in ('multi',):
+            tgt = root[1]
+        l0 = op_local(t['args'][0])
+        d0 = single_def(defs, l0) if l0 is not None else None
+        if d0 and d0[0] == 'stmt' and d0[3]['rv']['k'] == 'use' and op_local(d0[3]['rv']['op']) == md:
+            tgt = md
+        return tgt == md or l0 == md
+
+    def is_cleanup_call(t):
+        p = callee_path(t) or ''
+        return p == cleanup_path
+
+    # the cleanup routine: a closure of this function or a function of this crate called on the failure paths
+    if cleanup_path is None:
+        cands = set()
+        for pt in paths:
+            if pt['case'] in ('error', 'panic'):
+                for (bb, t, av) in pt['calls']:
+                    p = callee_path(t) or ''
+                    if p.startswith('truc_runtime::') and p != FN and crate.lookup(p) is not None:
+                        cands.add(p)
+        if len(cands) == 1:
+            cleanup_path = cands.pop()
+            info['cleanup_closure'] = cleanup_path
+            info['cleanup_is_fn'] = True
+    by_case = defaultdict(list)
+    for pt in paths:
+        by_case[pt['case']].append(pt)
+    for case in ('success', 'error', 'panic'):
+        if not by_case[case]:
+            raise CUnanalysable('no path after catch_unwind handles the %s outcome' % case)
+    if by_case.get('unknown'):
+        raise CUnanalysable('a path after catch_unwind does not examine the outcome')
     for arm in ('error', 'panic'):
-        a = arms[arm]
-        blocks = a['blocks']
-        where = '%s arm (bb%d)' % (arm, a['entry'])
-        # O6: cleanup closure is called on the arm
-        called = [t for bb, t in calls if bb in blocks and callee_path(t) == cleanup_path]
-        if len(called) != 1:
-            ctx.add(['C09'], 'O6', where, 'the %s arm calls the cleanup closure %d times' % (arm, len(called)), key='cleanup-call-%s' % arm)
-        else:
-            disc('O6', fmt_span(called[0]['span']), 'cleanup runs once on the %s arm' % arm)
-        # O7: allocation released: ManuallyDrop::drop(&mut md) / into_inner(md)+drop / drop_in_place, after set_len(0)
-        rel = None
-        for bb, t in calls:
-            if bb not in blocks:
-                continue
-            p = callee_path(t)
-            if p in ('core::mem::manually_drop::ManuallyDrop::<T>::drop', 'core::mem::manually_drop::ManuallyDrop::<T>::into_inner', 'core::ptr::drop_in_place', 'core::mem::manually_drop::ManuallyDrop::<T>::take'):
-                # operand must be (a reference to) the wrapper local
-                s1 = trace_value(b, defs, t['args'][0])
-                root = s1[-1]
-                tgt = None
-                if root[0] == 'ref' and not root[2]['p']:
-                    tgt = root[2]['l']
-                elif root[0] in ('multi',):
-                    tgt = root[1]
-                l0 = op_local(t['args'][0])
-                d0 = single_def(defs, l0) if l0 is not None else None
-                if d0 and d0[0] == 'stmt' and d0[3]['rv']['k'] == 'use' and op_local(d0[3]['rv']['op']) == md:
-                    tgt = md
-                if tgt == md or l0 == md:
-                    rel = (bb, t)
-        if rel is None:
-            ctx.add(['C09'], 'O7', where, 'on the %s arm the ManuallyDrop<Vec<T>> wrapper is never released: the vector\'s allocation is leaked' % arm, key='alloc-%s' % arm)
-        else:
-            # set_len(0) must precede it on the arm
-            z = [(bb, t) for bb, t in set_len if bb in blocks and op_int(t['args'][1]) == 0]
-            domr = dom.get(rel[0], set())
-            if not any(bb in domr for bb, _ in z):
-                ctx.add(['C09'], 'O7', fmt_span(rel[1]['span']), 'on the %s arm the vector is released without its length being set to 0 first: elements the cleanup already dropped are dropped again' % arm, key='alloc-len-%s' % arm)
-            # and the cleanup call precedes the release
-            elif called and not any(bb in domr for bb, t in calls if t is called[0]):
-                ctx.add(['C09'], 'O7', fmt_span(rel[1]['span']), 'on the %s arm the vector is released before the cleanup ran' % arm, key='alloc-order-%s' % arm)
+        for pt in by_case[arm]:
+            where = '%s path (via bb%s)' % (arm, '>'.join(str(x) for x in pt['trace'][:6]))
+            seq = pt['calls']
+            i_clean = [i for i, (bb, t, av) in enumerate(seq) if is_cleanup_call(t)]
+            i_len0 = [i for i, (bb, t, av) in enumerate(seq) if callee_path(t) == 'alloc::vec::Vec::<T, A>::set_len' and op_int(t['args'][1]) == 0]
+            i_rel = [i for i, (bb, t, av) in enumerate(seq) if is_release(t)]
+            if len(i_clean) != 1:
+                ctx.add(['C09'], 'O6', where, 'the %s path calls the cleanup routine %d times' % (arm, len(i_clean)), key='cleanup-call-%s' % arm)
             else:
-                disc('O7', fmt_span(rel[1]['span']), 'allocation released on the %s arm after cleanup and set_len(0)' % arm)
-                ctx.inst('O7', '%s arm releases the allocation [%s]' % (arm, label))
+                disc('O6', fmt_span(seq[i_clean[0]][1]['span']), 'cleanup runs once on the %s path' % arm)
+            if not i_rel:
+                ctx.add(['C09'], 'O7', where, 'on the %s path the ManuallyDrop<Vec<T>> wrapper is never released: the vector\'s allocation is leaked' % arm, key='alloc-%s' % arm)
+            elif len(i_rel) > 1:
+                ctx.add(['C09'], 'O7', where, 'on the %s path the vector is released %d times' % (arm, len(i_rel)), key='alloc-twice-%s' % arm)
+            else:
+                rel_t = seq[i_rel[0]][1]
+                if not any(i < i_rel[0] for i in i_len0):
+                    ctx.add(['C09'], 'O7', fmt_span(rel_t['span']), 'on the %s path the vector is released without its length being set to 0 first: elements the cleanup already dropped are dropped again' % arm, key='alloc-len-%s' % arm)
+                elif i_clean and not i_clean[0] < i_rel[0]:
+                    ctx.add(['C09'], 'O7', fmt_span(rel_t['span']), 'on the %s path the vector is released before the cleanup ran' % arm, key='alloc-order-%s' % arm)
+                else:
+                    disc('O7', fmt_span(rel_t['span']), 'allocation released on the %s path after cleanup and set_len(0)' % arm)
+                    ctx.inst('O7', '%s path releases the allocation [%s]' % (arm, label))
+    for pt in by_case['success']:
+        seq = pt['calls']
+        if any(is_cleanup_call(t) for bb, t, av in seq):
+            ctx.add(['C08'], 'O5', 'success path', 'the cleanup routine runs on the success path', key='cleanup-on-success')
+        if pt['end'][0] != 'return' or not (isinstance(pt['end'][1], ENode) and pt['end'][1].vname == 'Ok'):
+            ctx.add(['C08'], 'O5', 'success path', 'the success path does not return Ok(..)', key='success-return')
     # ---- O8 error value / payload
-    a = arms['error']
-    ret_err = None
-    for i, j, s in b.statements():
-        if i in a['blocks'] and s['k'] == 'assign' and not s['place']['p'] and s['place']['l'] == 0 and s['rv']['k'] == 'aggregate' and s['rv'].get('variant') == 'Err':
-            ret_err = s
-    if ret_err is None:
-        ctx.add(['C09'], 'O8', 'error arm', 'the error arm does not return Err(..)', key='err-return')
-    else:
-        st = trace_value(b, defs, ret_err['rv']['fields'][0])
-        t = st[-1]
-        ok = t[0] == 'place' and t[1]['l'] == res_local and [e.get('name') if isinstance(e, dict) and 'downcast' in e else None for e in t[1]['p'] if isinstance(e, dict) and 'downcast' in e] == ['Ok', 'Err']
-        if not ok:
-            ctx.add(['C09'], 'O8', fmt_span(ret_err.get('span')), 'the Err value returned is not the one the converter returned (%s)' % (t,), key='err-value')
-        else:
-            disc('O8', fmt_span(ret_err.get('span')), 'Err(e) returns the value moved out of the closure result')
-            ctx.inst('O8', 'error value passed through [%s]' % label)
-    a = arms['panic']
-    resumed = [(bb, t) for bb, t in calls if bb in a['blocks'] and callee_path(t) == 'std::panic::resume_unwind']
-    diverge = [(bb, t) for bb, t in calls if bb in a['blocks'] and t['t'] is None]
-    if len(resumed) != 1:
-        how = ', '.join(sorted(set(callee_path(t) or '?' for _, t in diverge))) or 'nothing'
-        ctx.add(['C09'], 'O8', 'panic arm (bb%d)' % a['entry'], 'the panic arm does not resume unwinding with the caught payload; it ends in: %s (the caller receives a different payload)' % how, key='payload')
-    else:
-        st = trace_value(b, defs, resumed[0][1]['args'][0])
-        t = st[-1]
-        ok = t[0] == 'place' and t[1]['l'] == res_local and any(isinstance(e, dict) and e.get('name') == 'Err' for e in t[1]['p'])
-        if not ok:
-            ctx.add(['C09'], 'O8', fmt_span(resumed[0][1]['span']), 'resume_unwind is not given the caught payload', key='payload-value')
-        else:
-            disc('O8', fmt_span(resumed[0][1]['span']), 'resume_unwind(payload) with the Box moved out of catch_unwind\'s Err')
-            ctx.inst('O8', 'panic payload passed through [%s]' % label)
+    ok_err = True
+    for pt in by_case['error']:
+        end = pt['end']
+        v = end[1] if end[0] == 'return' else None
+        if not (isinstance(v, ENode) and v.vname == 'Err'):
+            ctx.add(['C09'], 'O8', 'error path', 'the error path does not return Err(..)', key='err-return')
+            ok_err = False
+            continue
+        inner = v.fields.get(0)
+        if not (isinstance(inner, ENode) and inner.origin == ('res', 'Ok', 0, 'Err', 0)):
+            ctx.add(['C09'], 'O8', 'error path', 'the Err value returned is not the one the converter returned (%s)' % (getattr(inner, 'origin', inner),), key='err-value')
+            ok_err = False
+    if ok_err:
+        disc('O8', b.span(), 'Err(e) returns the value moved out of the closure result on every error path')
+        ctx.inst('O8', 'error value passed through [%s]' % label)
+    ok_pay = True
+    for pt in by_case['panic']:
+        end = pt['end']
+        if end[0] != 'diverge' or callee_path(end[1]) != 'std::panic::resume_unwind':
+            how = callee_path(end[1]) if end[0] == 'diverge' else end[0]
+            ctx.add(['C09'], 'O8', 'panic path', 'the panic path does not resume unwinding with the caught payload; it ends in: %s (the caller receives a different payload)' % how, key='payload')
+            ok_pay = False
+            continue
+        v = end[2][0] if end[2] else None
+        if not (isinstance(v, ENode) and v.origin == ('res', 'Err', 0)):
+            ctx.add(['C09'], 'O8', fmt_span(end[1]['span']), 'resume_unwind is not given the caught payload', key='payload-value')
+            ok_pay = False
+    if ok_pay:
+        disc('O8', b.span(), 'resume_unwind(payload) with the Box moved out of catch_unwind\'s Err on every panic path')
+        ctx.inst('O8', 'panic payload passed through [%s]' % label)
     # ---- O9: converter not called after catch_unwind returned
     after = b.reachable(info['t_cu']['t']) if info['t_cu']['t'] is not None else set()
     bad = []
@@ -1131,6 +1163,203 @@ def cleanup_rules(ctx, crate, info, conv, label):
         ctx.add(['C09'], 'O6', FN, 'no cleanup closure found', key='cleanup-missing')
         return
     cleanup_closure_rules(ctx, crate, b, cb, info, roles, conv, label)
+
+
+ENUM_VARIANTS = {'core::result::Result': ['Ok', 'Err'], 'core::option::Option': ['None', 'Some'],
+                 'core::ops::control_flow::ControlFlow': ['Continue', 'Break']}
+
+
+class ENode:
+    """An enum value on one path: known variant (or not yet), payload, and where it came from."""
+    def __init__(self, origin=None, kind=None, vname=None, fields=None):
+        self.origin = origin
+        self.kind = kind
+        self.vname = vname
+        self.fields = fields if fields is not None else {}
+    def clone(self, memo):
+        if id(self) in memo:
+            return memo[id(self)]
+        n = ENode(self.origin, self.kind, self.vname, {})
+        memo[id(self)] = n
+        for k, v in self.fields.items():
+            n.fields[k] = v.clone(memo) if isinstance(v, ENode) else v
+        return n
+    def __repr__(self):
+        return 'ENode(%s,%s,%r)' % (self.origin, self.vname, self.fields)
+
+
+def enum_kind(ty):
+    for k in ENUM_VARIANTS:
+        if (ty or '').startswith(k + '<') or ty == k:
+            return k
+    return None
+
+
+def tail_paths(b, start, res_local, max_paths=400):
+    """All normal-edge paths from `start` (the block catch_unwind returns to) to an exit.  Returns dicts
+    {case, calls: [(bb, term, arg values)], end: ('return', value) | ('diverge', term, arg values) | (kind,), trace}."""
+    if start is None:
+        raise CUnanalysable('catch_unwind has no return edge')
+    root = ENode(('res',), enum_kind(b.local_ty(res_local)) or 'core::result::Result')
+    out = []
+
+    def fork_env(env):
+        memo = {}
+        def cl(v):
+            if isinstance(v, ENode):
+                return v.clone(memo)
+            if isinstance(v, tuple) and v and v[0] == 'discr':
+                return ('discr', cl(v[1]))
+            return v
+        return {k: cl(v) for k, v in env.items()}
+
+    def child(node, vname, i):
+        if node.vname is None:
+            node.vname = vname
+        if i not in node.fields:
+            node.fields[i] = ENode((node.origin + (vname, i)) if node.origin else None)
+        return node.fields[i]
+
+    def eval_place(env, pl):
+        v = env.get(pl['l'])
+        cur_v = None
+        for e in pl['p']:
+            if e == 'deref':
+                continue
+            if isinstance(e, dict) and 'downcast' in e:
+                cur_v = e.get('name')
+                continue
+            if isinstance(e, dict) and 'f' in e:
+                if isinstance(v, ENode):
+                    v = child(v, cur_v or v.vname, e['f'])
+                    if isinstance(v, ENode) and v.kind is None:
+                        v.kind = enum_kind(e.get('ty'))
+                    cur_v = None
+                    continue
+                return None
+            return None
+        return v
+
+    def eval_op(env, op):
+        pl = op_place(op)
+        if pl is not None:
+            return eval_place(env, pl)
+        if 'const' in op:
+            return ('const', op['const'].get('int'), op['const'])
+        return None
+
+    work = [(start, {res_local: root}, [], [], frozenset())]
+    while work:
+        bb, env, calls, trace, seen = work.pop()
+        while True:
+            if bb in seen:
+                raise CUnanalysable('loop after catch_unwind (bb%d)' % bb)
+            seen = seen | {bb}
+            trace = trace + [bb]
+            blk = b.blocks[bb]
+            for st in blk['stmts']:
+                if st['k'] != 'assign':
+                    continue
+                pl = st['place']
+                rv = st['rv']
+                val = None
+                if rv['k'] == 'use':
+                    val = eval_op(env, rv['op'])
+                elif rv['k'] in ('ref', 'rawptr'):
+                    val = eval_place(env, rv['place'])
+                elif rv['k'] == 'copy_for_deref':
+                    val = eval_place(env, rv['place'])
+                elif rv['k'] == 'discr':
+                    n = eval_place(env, rv['place'])
+                    val = ('discr', n) if isinstance(n, ENode) else None
+                elif rv['k'] == 'aggregate' and rv.get('ak') == 'adt' and rv.get('adt') in ENUM_VARIANTS:
+                    val = ENode(None, rv['adt'], rv.get('variant'), {i: eval_op(env, f) for i, f in enumerate(rv['fields'])})
+                elif rv['k'] == 'cast':
+                    val = eval_op(env, rv['op'])
+                if not pl['p']:
+                    env[pl['l']] = val
+            t = blk['term']
+            k = t['k']
+            if k == 'goto':
+                bb = t['t']
+                continue
+            if k in ('drop', 'assert'):
+                bb = t['t']
+                continue
+            if k == 'call':
+                av = [eval_op(env, a) for a in t['args']]
+                calls = calls + [(bb, t, av)]
+                if t['t'] is None:
+                    out.append({'env': env, 'calls': calls, 'end': ('diverge', t, av), 'trace': trace})
+                    break
+                p = callee_path(t) or ''
+                if not t['dest']['p']:
+                    # values handed through identity-like calls
+                    if p in ('core::mem::manually_drop::ManuallyDrop::<T>::into_inner',) or p.endswith('::into') or p.endswith('From<T>>::from'):
+                        env[t['dest']['l']] = av[0] if av else None
+                    else:
+                        env[t['dest']['l']] = None
+                bb = t['t']
+                continue
+            if k == 'switch':
+                v = eval_op(env, t['d'])
+                if isinstance(v, tuple) and v[0] == 'discr' and isinstance(v[1], ENode):
+                    node = v[1]
+                    names = ENUM_VARIANTS.get(node.kind or '', [])
+                    if node.vname is not None and node.vname in names:
+                        idx = names.index(node.vname)
+                        bb = dict((a, c) for a, c in t['targets']).get(idx, t['otherwise'])
+                        continue
+                    if names:
+                        listed = [a for a, _ in t['targets']]
+                        alts = [(a, c) for a, c in t['targets']]
+                        rest = [i for i in range(len(names)) if i not in listed]
+                        if len(rest) == 1 and b.blocks[t['otherwise']]['term']['k'] != 'unreachable':
+                            alts.append((rest[0], t['otherwise']))
+                        # fork: the node is shared through env copies by position, so re-evaluate per fork
+                        for a, c in alts:
+                            e2 = fork_env(env)
+                            v2 = eval_op(e2, t['d'])
+                            if a < len(names):
+                                v2[1].vname = names[a]
+                            work.append((c, e2, list(calls), list(trace), seen))
+                        break
+                if isinstance(v, tuple) and v[0] == 'const' and v[1] is not None:
+                    bb = dict((a, c) for a, c in t['targets']).get(v[1], t['otherwise'])
+                    continue
+                for a, c in t['targets']:
+                    work.append((c, fork_env(env), list(calls), list(trace), seen))
+                bb = t['otherwise']
+                continue
+            if k == 'return':
+                out.append({'env': env, 'calls': calls, 'end': ('return', env.get(0)), 'trace': trace})
+                break
+            out.append({'env': env, 'calls': calls, 'end': (k,), 'trace': trace})
+            break
+        if len(out) > max_paths:
+            raise CUnanalysable('too many paths after catch_unwind')
+    # classify by what the path learnt about the result
+    res = []
+    for pt in out:
+        if pt['end'][0] == 'unreachable':
+            continue
+        r = pt['env'].get(res_local)
+        case = 'unknown'
+        # the root node of this path: find through any value whose origin is ('res',)
+        node = r if isinstance(r, ENode) and r.origin == ('res',) else None
+        if node is None:
+            case = 'unknown'
+        elif node.vname == 'Err':
+            case = 'panic'
+        elif node.vname == 'Ok':
+            inner = node.fields.get(0)
+            if isinstance(inner, ENode) and inner.vname == 'Err':
+                case = 'error'
+            elif isinstance(inner, ENode) and inner.vname == 'Ok':
+                case = 'success'
+        pt['case'] = case
+        res.append(pt)
+    return res
 
 
 def classify_arms(b, res_local, bb_cu):
